@@ -317,15 +317,15 @@ PROPS = {
     "C17": {
         "engines": [_eng("ctl", 20000, 600000), _eng("dirs", 15000, 500000), _eng("", 6000, 200000)],
         "nontrivial": _eng_nontrivial,
-        "rule": _ENG_RULE + "Profile `ctl`: ctl:ruleRemoveById (ids, ranges), ByTag, ruleRemoveTargetById (string and regex keys, "
+        "rule": _ENG_RULE + "Profile `ctl`: ctl:ruleRemoveById (ids, ranges), ByTag, ByMsg, ruleRemoveTargetById / ByTag / ByMsg (string and regex keys, "
                 "whole variable) placed at every position, and bursts of two or three run-time exclusions aimed at one existing rule "
-                "and the variables it reads. Profile `dirs`: 1-3 configuration-time directives (SecRuleRemoveById/ByTag, "
+                "and the variables it reads. Profile `dirs`: 1-3 configuration-time directives (SecRuleRemoveById/ByTag/ByMsg, "
                 "SecRuleUpdateTargetById/ByTag, SecRuleUpdateActionById) with id lists of 1-3 elements (existing ids, ids without a "
                 "rule, ranges, lo=hi, inverted ranges), positive and negative targets with string and regex keys, action lists "
                 "(disruptive replacement, status, severity, tag, setvar, log flags, skip, skipAfter), placed after all rules or in "
                 "between (a directive acts on the rules before it); NewWAF failing is an observation (CONFIGERR).",
         "modelled": _ENG_MODELLED, "assumptions": _ENG_ASSUME,
-        "open_statements": ["SecRuleRemoveByMsg / SecRuleUpdateTargetByMsg and ctl:…ByMsg are not in the model (rules carry no msg there)",
+        "open_statements": [
                             "the condition under which an id list is a configuration error (nothing updated and some listed id "
                             "without a rule) is part of the model and compared by the correspondence; the theorems state the "
                             "resulting rule list (C17_update_rules) for well-formed lists"],
